@@ -263,6 +263,7 @@ def run(ctx: Ctx):
     run_fidelity_executor(ctx)
     run_real_pools(ctx)
     run_real_fit(ctx)
+    run_unsolvable_loop(ctx)
 
 
 def run_fidelity_executor(ctx: Ctx):
@@ -358,3 +359,59 @@ def run_real_fit(ctx: Ctx):
             diff = [f'{c}.{k}' for c in out[0]['components'] for k in out[0]['components'][c] if out[0]['components'][c][k] != out[1]['components'][c].get(k)]
             ctx.violate('C15:training-depends-on-executor', f'fit() through an 8-thread pool differs from serial training: same refinement choices: {same_hist}; '
                         f'differing fields: {diff[:6]}', case)
+
+
+def run_unsolvable_loop(ctx: Ctx):
+    """a feedback loop without a fixed point (u0 = u1 + c, u1 = u0): no sample converges, every candidate look-ahead ends at the iteration
+    limit and returns NaN.  Training with an executor must go the same way as without one (same history, NaN in the same places)."""
+    import logging
+    from concurrent.futures import ThreadPoolExecutor
+    from amisc import Component, System, Variable
+    rng = ctx.rng
+    for n in range(ctx.pick(2, 8)):
+        c = rng.choice([1.0, 0.5, 2.0]); seed = rng.randint(0, 10 ** 6)
+
+        def build():
+            x = Variable('x', distribution='U(0, 1)')
+            u0 = Variable('u0', domain=(0, 1)); u1 = Variable('u1', domain=(0, 1))
+
+            def fa(inputs, _c=c):
+                return {'u0': np.asarray(inputs['u1'], dtype=float) + _c}
+
+            def fb(inputs):
+                return {'u1': np.asarray(inputs['u0'], dtype=float) + 0.0 * np.asarray(inputs['x'], dtype=float)}
+            s_ = System(Component(fa, [u1], [u0], name='A', vectorized=True, data_fidelity=(2,)),
+                        Component(fb, [u0, x], [u1], name='B', vectorized=True, data_fidelity=(1, 1)), name=f'nofix{n}')
+            s_.logger.setLevel(logging.CRITICAL)
+            return s_
+        case = {'unsolvable_loop': n, 'offset': c, 'numpy_seed': seed}
+        ctx.case(case, nontrivial=True, kind='fit:loop-without-fixed-point')
+        runs = {}
+        for mode in ('serial', 'thread-pool', 'scheduled'):
+            system = build(); np.random.seed(seed)
+            saved = None
+            try:
+                if mode == 'serial':
+                    system.fit(max_iter=5, num_refine=12, max_tol=-1.0)
+                elif mode == 'thread-pool':
+                    with ThreadPoolExecutor(max_workers=2) as pool:
+                        system.fit(max_iter=5, num_refine=12, max_tol=-1.0, executor=pool)
+                else:
+                    import random as _random
+                    ex = SchedExecutor(lambda m, _r=_random.Random(seed): _r.sample(range(m), m))
+                    saved = install_wait(ex)
+                    system.fit(max_iter=5, num_refine=12, max_tol=-1.0, executor=ex)
+            except BaseException as e:      # noqa: BLE001
+                runs[mode] = f'raised {type(e).__name__}: {e}'
+                continue
+            finally:
+                if saved is not None:
+                    restore_wait(saved)
+            np.random.seed(seed + 1)
+            y = system.predict(system.sample_inputs(4))
+            runs[mode] = ([(h['component'], tuple(h['alpha']), tuple(h['beta'])) for h in system.train_history],
+                          {k: np.isnan(np.asarray(v, dtype=float)).tolist() for k, v in sorted(y.items())})
+        for mode in ('thread-pool', 'scheduled'):
+            if runs[mode] != runs['serial']:
+                ctx.violate('C15:executor-vs-serial', f'loop without a fixed point, fit through a {mode} executor: {runs[mode] if isinstance(runs[mode], str) else runs[mode][0]}; '
+                            f'without an executor: {runs["serial"] if isinstance(runs["serial"], str) else runs["serial"][0]}', {**case, 'executor': mode}); break
